@@ -26,7 +26,8 @@ def _generate(rng, n, tier):
         yield G.gen_edge_start(rng) if rng.random() < 0.05 else c
 
 
-generate, run_impl, oracle = SC.with_extras(_generate, SC.run_impl, SC.oracle_c02, {"ensbox": (0.08, SC.gen_ensbox, SC.run_ensbox, SC.oracle_ensbox)})
+generate, run_impl, oracle = SC.with_extras(_generate, SC.run_impl, SC.oracle_c02, {"ensbox": (0.08, SC.gen_ensbox, SC.run_ensbox, SC.oracle_ensbox),
+                                                                                           "wrapbox": (0.06, SC.gen_wrapbox, SC.run_wrapbox, SC.oracle_wrapbox)})
 coq_preamble = SC.coq_preamble
 coq_terms = SC.make_coq_terms('(mk_mask true false false false false false true false)')
 coq_debug = SC.coq_debug
